@@ -216,6 +216,15 @@ fn run_history(ops: &[Op], mut on_query: impl FnMut(&Live, &Request, &Obs, usize
         if let Some(m) = l.wrongly_rejected.take() {
             return Some((i, m));
         }
+        // the enabled set is plain set algebra over the calls made so far
+        {
+            let mut got: Vec<String> = l.b.tags_enabled();
+            got.sort();
+            let want: Vec<String> = l.tags.iter().cloned().collect();
+            if got != want {
+                return Some((i, format!("enabled tags are {:?}, set algebra over the history gives {:?}", got, want)));
+            }
+        }
         if let Op::Optimize = o { optimized = true }
         if let Op::Query(u, s, t) = o {
             let Ok(req) = Request::new(u, s, t) else { continue };
@@ -300,7 +309,7 @@ fn main() {
         return;
     }
     let mut r = Rng::new(a.seed);
-    let mut cs = Cases::new(&a.out, "Hashing Net_Model Net_Proofs C06_Model");
+    let mut cs = Cases::new(&a.out, "Hashing Net_Model Net_Proofs C05_Model C06_Model C06_History_Model");
     cs.shard = 40;
     let mut sm = Summary::default();
     sm.rule = "histories of 10-40 public operations on a live Blocker (add_filter of plain/regex/tagged/duplicate rules, use/enable/disable tags, zero-time discard policies, discard of every cached regex, optimize, queries) - every query is compared with a freshly built blocker over the accepted rules and current tags; non-trivial = a query in the history hit at least one rule after a tag switch, discard or optimize had happened".into();
@@ -369,6 +378,36 @@ fn main() {
                 json!({"fn": "CacheInv on dumped state", "ops": opsj, "cache_entries": cache.len(), "stored_rules": heap.len()}),
                 !cache.is_empty(),
             );
+        }
+        // the whole state after the history, against the model's history semantics (C06_History_Model.hrun:
+        // add_filter / tag calls / optimize() in the order they happened): every one of the eight lists,
+        // bucket by bucket, as (id, mask, patterns)
+        {
+            let hops: Vec<String> = ops.iter().filter_map(|o| match o {
+                Op::Add(line) => NetworkFilter::parse(line, true, Default::default()).ok().map(|f| format!("HAdd {}", coq_rule(&dump_filter(&f)))),
+                Op::Use(t) => Some(format!("HUse {}", cstrs(t))),
+                Op::Enable(t) => Some(format!("HEnable {}", cstrs(t))),
+                Op::Disable(t) => Some(format!("HDisable {}", cstrs(t))),
+                Op::Optimize => Some("HOptimize".to_string()),
+                _ => None,
+            }).collect();
+            let n_adds = hops.iter().filter(|h| h.starts_with("HAdd")).count();
+            if n_adds <= 18 {
+                let mut l = Live { b: Blocker::new(vec![], &BlockerOptions { enable_optimizations: false }), accepted: vec![], tags: BTreeSet::new(), wrongly_rejected: None };
+                for o in ops.iter() {
+                    apply(&mut l, o);
+                }
+                let d = dump_blocker(&l.b);
+                let view = |f: &FilterDump| format!("({}, {}, {})", cn(f.id), cn(f.mask), cstrs(&f.filter));
+                let v_coq = clist(&d.lists, |(_, lst)| clist(lst, |(k, b)| format!("({}, {})", cn(*k), clist(b, view))));
+                cs.stat("history_state");
+                if ops.iter().any(|o| matches!(o, Op::Optimize)) { cs.stat("history_state_with_optimize"); }
+                cs.case(
+                    format!("blocker_views_eqb (hrun seahash [{}]) {}", hops.join("; "), v_coq),
+                    json!({"fn": "state after the history vs hrun", "ops": opsj}),
+                    n_adds >= 3,
+                );
+            }
         }
         engine_level(&mut r, &mut sm);
     }
